@@ -1,6 +1,7 @@
 package engine
 
 import (
+	"time"
 	"net/http"
 	"net/http/httptest"
 	"sync"
@@ -21,6 +22,9 @@ type Gateway struct {
 	// RefuseFirst: the first n pushes are answered with 503 and leave the gateway's content as it was
 	RefuseFirst int
 	seen        int
+	// DelayNth > 0: the n-th push is answered only after DelayFor (its content is taken in on arrival)
+	DelayNth int
+	DelayFor time.Duration
 }
 
 func NewGateway(status int) *Gateway {
@@ -72,7 +76,11 @@ func NewGateway(status int) *Gateway {
 			g.state = counts
 		}
 		g.pushes = append(g.pushes, counts)
+		slow := g.DelayNth > 0 && g.seen == g.DelayNth
 		g.mu.Unlock()
+		if slow {
+			time.Sleep(g.DelayFor)
+		}
 		w.WriteHeader(g.Status)
 	}))
 	return g
